@@ -171,7 +171,11 @@ func main() {
 		if err != nil {
 			panic(err)
 		}
-		drv.RunWindows(*seed, *part, *parts, t, 0)
+		if *part == -2 {
+			drv.RunRecycleWindows(*seed, *parts, t, 0) // third family: -seed selects the slice
+		} else {
+			drv.RunWindows(*seed, *part, *parts, t, 0)
+		}
 		t.Close()
 		fmt.Printf("events=%d\n", t.N)
 	case "lockprogs":
